@@ -442,15 +442,18 @@ def opaque_call(ev, st, ctx, why):
     callee = ctx.callee
     name = callee.get("rpath") or callee.get("path") or "?"
     sig = []
+    argsigs = []
     for a in ctx.args:
+        n0 = len(sig)
         value_sig(ev, st, a, sig)
+        argsigs.append(tuple(sig[n0:]))
     unresolved = callee.get("res") is None and callee.get("why") == "unresolved"
     if unresolved:
         sig.append(st.world)
     call = T.atom("call", 1, tuple(sig), name)
     if unresolved:
         st.world = T.atom("tick", 1, (st.world, call))
-    ev.calls.append((ctx.fr.body["key"] if ctx.fr else "?", name, ctx.span, why, call))
+    ev.calls.append((ctx.fr.body["key"] if ctx.fr else "?", name, ctx.span, why, call, argsigs))
     # effects on &mut arguments
     for i, (a, aty) in enumerate(zip(ctx.args, ctx.argtys)):
         havoc_arg(ev, st, a, aty, call, i)
@@ -1123,6 +1126,17 @@ def p_result_map(ev, st, ctx):
     pay = dict(v.payloads)
     if 0 in pay:
         pay[0] = (call_closure(ev, st, f, list(pay[0]), ctx.fr.depth),)
+    return EnumV(v.discr, pay)
+
+
+@prim("core::option::Option::<T>::map")
+def p_option_map(ev, st, ctx):
+    v, f = ctx.args
+    if not isinstance(v, EnumV):
+        raise Unsupported("Option::map of %r" % (v,))
+    pay = dict(v.payloads)
+    if 1 in pay:
+        pay[1] = (call_closure(ev, st, f, list(pay[1]), ctx.fr.depth),)
     return EnumV(v.discr, pay)
 
 
